@@ -23,7 +23,7 @@ RULE = ("per instance a pool of feasible packings (oracle-filtered) from "
 LEVEL_ASSUMPTIONS = [
     "objective oracle vlib/oracles/packing.py:objective_values written from "
     "the property text (skyline by coordinate compression)"]
-REQUIRED = {"suite_runs": 1, "contract_evaluate_evaluated": 2000, "dominance_pairs": 300,
+REQUIRED = {"concurrent_objective_evaluations": 5000, "suite_runs": 1, "contract_evaluate_evaluated": 2000, "dominance_pairs": 300,
             "origin[nondecoder]": 200, "from_packing_and_end_result_ok": 20,
             "dtype[int8]": 1, "dtype[int16]": 1, "dtype[int32]": 1,
             "dtype[int64]": 1}
@@ -40,6 +40,8 @@ SUITE_DOMAINS = ['packing']
 def plan(tier: str, seed: int):
     rounds = 1 if tier == "quick" else 6
     return _plan(tier, seed) + [
+        {"name": "threads", "engine": "jit", "timeout": 3000,
+         "args": {"mode": "threads", "n": 5 if tier == "quick" else 60}}] + [
         {"name": f"suite{i}", "engine": "jit", "timeout": 3000,
          "args": {"mode": "suite", "tests": SUITE_TESTS,
                   "domains": SUITE_DOMAINS, "rounds": rounds}}
@@ -226,10 +228,56 @@ def one_instance(ctx, desc):
                 "values": values[0]})
 
 
+def threads_shard(ctx, args):
+    """Every thread its own seven objective objects (their scratch arrays)
+    and its own copies of the packings, one shared instance; the values must
+    be the oracle's."""
+    from vlib.threads import stress
+    rng = ctx.rng
+    _monitor(ctx)
+    done = 0
+    while done < args["n"]:
+        desc = wb.gen_instance(rng, str(rng.choice(
+            ["general", "twins", "count", "forcedrot"])))
+        try:
+            inst = wb.make_real(desc)
+        except ValueError:
+            continue
+        pool = build_pool(ctx, desc, inst)[:10]
+        if len(pool) < 2 or max(k for _t, _r, k in pool) < 2:
+            continue
+        keys = sorted(objective_classes())
+        ref = []
+        for _tag, rows, _k in pool:
+            want = po.objective_values(desc, rows)
+            ref.append([want[k] for k in keys])
+        if any(abs(v) > INT64_MAX for r in ref for v in r):
+            continue
+        done += 1
+
+        def jobs_for(tid, inst=inst, pool=pool, keys=keys):
+            objs = [objective_classes()[k](inst) for k in keys]
+            raw = [getattr(type(o), "_verif_orig_evaluate", None)
+                   for o in objs]
+            ys = [wb.to_packing(inst, rows, k) for _t, rows, k in pool]
+            return [lambda y=y: [
+                (r(o, y) if r is not None else o.evaluate(y))
+                for o, r in zip(objs, raw)] for y in ys]
+        ctx.count("concurrent_rounds")
+        if not stress(ctx, "objective_evaluations", jobs_for, ref,
+                      lambda a, b: list(a) == list(b), loops=30,
+                      case={"kind": "pool", "desc": desc,
+                            "pool": [[t, r, k] for t, r, k in pool]}):
+            return
+
+
 def run_shard(ctx, args):
+    if args.get("mode") == "threads":
+        return threads_shard(ctx, args)
     rng = ctx.rng
     classes = ["tiny", "general", "itembin", "forcedrot", "general", "dtype",
-               "smallgrid", "smallgrid", "unit", "shipped", "hugebin"]
+               "smallgrid", "smallgrid", "unit", "shipped", "hugebin",
+               "count"]
     names = None
     for it in range(args["n"]):
         cls = classes[it % len(classes)]
